@@ -255,7 +255,16 @@ def _handle_request(kind):
             E.setattr(f, 'flags_complete', E.path.choice(2, 'requester-has-no-publisher[complete flag]') == 1)
         ret = {'response': fut, 'stream': pub, 'channel': (pub, rsub), 'fnf': None}[kind]
         subscription = SOpaque('subscription', 'app-subscription')
-        log = OpaqueLog(E, returns={hm: lambda *a: aio.Awaitable('ready', result=ret),
+        # the handler method is a coroutine of the application: it may suspend, and close() / reconnect cancel the receiver task
+        # while it does - asyncio delivers that cancellation at this await
+        cancelled_in_handler = E.path.choice(2, 'receiver-cancelled-while-the-handler-is-suspended') == 1
+
+        def on_suspend(E_, what):
+            if what[0] == 'app-handler':
+                E_.throw('CancelledError')
+            return None
+        E.suspend_hook = on_suspend
+        log = OpaqueLog(E, returns={hm: lambda *a: aio.Awaitable('app-handler') if cancelled_in_handler else aio.Awaitable('ready', result=ret),
                                     ('publisher', 'subscribe'): lambda E_, o, m, a, k: E_.call(E_.getattr(a[0], 'on_subscribe'), [subscription])},
                         may_raise=lambda o, m: o.kind == 'app-handler')
         P = E.prove
@@ -271,6 +280,10 @@ def _handle_request(kind):
         except PyExc as e:
             E.cover('raised')
             calls = log.of(app)
+            if e.value.cls.name == 'CancelledError':
+                P('@C11,C17,C12,C10:request:only_a_real_cancellation_of_the_receiver_surfaces_as_CancelledError', cancelled_in_handler and len(calls) == 1)
+                P('request:failed_request_registers_nothing', table.has.eq(h0))
+                return
             if e.value.cls.issubclass(E.lookup('rsocket/exceptions.py::RSocketStreamIdInUse')):
                 P('reuse:a_free_id_is_never_rejected', False)
             else:
@@ -279,6 +292,10 @@ def _handle_request(kind):
             return
         E.cover('accepted')
         calls = log.of(app)
+        P('@C11,C17,C12,C10:request:a_cancellation_delivered_while_the_handler_is_suspended_is_not_swallowed[close() must be able to end the receiver]',
+          not cancelled_in_handler)
+        if cancelled_in_handler:
+            return
         P('request:handler_method_of_that_type_invoked_once_with_the_frame_payload',
           len(calls) == 1 and calls[0][1] == hm and payload_is(E, calls[0][2][0], data, md))
         if kind == 'fnf':
@@ -308,7 +325,7 @@ def _handle_request(kind):
 
 
 for _k in ('response', 'stream', 'channel', 'fnf'):
-    harness('e.handle_request[%s]' % _k, ['C01', 'C13', 'C12', 'C08', 'C10', 'C07'],
+    harness('e.handle_request[%s]' % _k, ['C01', 'C13', 'C12', 'C08', 'C10', 'C07', 'C11', 'C17'],
             functions=[BASE + '.' + {'response': 'handle_request_response', 'stream': 'handle_request_stream',
                                      'channel': 'handle_request_channel', 'fnf': 'handle_fire_and_forget'}[_k],
                        SC + '.assert_stream_id_available', BASE + '._register_stream', 'rsocket/helpers.py::payload_from_frame'],
